@@ -80,6 +80,24 @@ DESC = {
  "R4-m1": "shared oneshot broadcast: dropping the last receiver handle also clears the stored value (outstanding futures get None)",
  "R4-m2": "state broadcast: try_receive returns None once the channel is closed",
  "R4-m3": "timer check_expirations wakes at most 32 timers per call",
+ "A1-m1": "mutex: first poll of a lock future checks and enqueues in two critical sections (threads only)",
+ "A1-m2": "mutex: new private 'notified_waiters' counter suppresses wake-ups and leaks when the only notified waiter is dropped (hidden state)",
+ "A1-m3": "event: set() detaches the waiter list under the lock and wakes the waiters after unlocking (threads only)",
+ "A2-m1": "semaphore: a cancelled *waiting* request skips the wake-up pass when its own request would fit (unfair, 3 futures)",
+ "A2-m2": "semaphore: release() fast path on a cached 'request of the oldest waiter' that one path forgets to refresh (hidden state)",
+ "A2-m3": "semaphore: first poll of an acquire future checks and registers in two critical sections (threads only)",
+ "A3-m1": "mpmc: receive poll split into 'try to receive' and 'register' critical sections (threads only)",
+ "A3-m2": "mpmc: try_send skips the receiver wake-up when the buffer was already non-empty",
+ "A3-m3": "mpmc: close() detaches both wait queues under the lock and wakes them after unlocking (threads only)",
+ "A4-m1": "mpmc: implicit close by the last shared Sender no longer wakes parked send futures",
+ "A4-m2": "mpmc: last shared Receiver skips discarding the buffer when the channel was already closed",
+ "A4-m3": "mpmc: lock-free 'already closed' flag published before the channel is closed under its lock (threads only, handle-counter hook)",
+ "A5-m1": "state broadcast: shared receive future reports is_terminated()==false after completing with None",
+ "A5-m2": "oneshot broadcast: last receiver handle does not close the channel while a receive future is pending",
+ "A5-m3": "state broadcast: send() detaches the waiter list and wakes after releasing the lock (threads only)",
+ "A6-m1": "timer: Clock::now() is read before the timer lock is taken (threads only)",
+ "A6-m2": "timer: deadlines ordered by signed wrapping distance",
+ "A6-m3": "ArrayBuf: index wrap-around via mask for backing arrays with more than 64 elements (breaks user RealArray of 96 / 384 elements)",
 }
 
 def first_sentence(meta):
